@@ -207,6 +207,11 @@ def _to_str(s, enc=locale.getpreferredencoding()):'''}]},
      "edits": [{"file": "cnvlib/commands.py",
                 "old": "    core.ensure_path(ref_fname)\n",
                 "new": "    os.makedirs(os.path.dirname(os.path.abspath(ref_fname)), exist_ok=True)\n"}]},
+    {"id": "c10-ensure-path-bare-name", "property": "C10", "expect": ["W1", "W2"],
+     "why": "a bare file name (no directory component) is never moved out of the way",
+     "edits": [{"file": "cnvlib/core.py",
+                "old": "    if os.path.isfile(fname):\n",
+                "new": "    if os.path.dirname(fname) and os.path.isfile(fname):\n"}]},
     {"id": "c10-shortname-tie", "property": "C10", "expect": ["R2"],
      "why": "revert of repair 9d8144c",
      "edits": [{"file": "cnvlib/target.py",
